@@ -39,6 +39,14 @@
 (*                                bits and the network generates geneses                                          *)
 (*   ReplicasFollow               no node refuses a block of the chain that the synced nodes validated              *)
 (*   RulesFollowVersion           a rules probe is accepted exactly by the nodes whose version has those rules      *)
+(*   RestartRestoresBook          the book after a restart is the persisted book                                   *)
+(*   CanOnlyByRule / CanWhenRule  CanUpgrade answers yes only under the published rule (window inclusive, distance   *)
+(*                                to the validation, int(0.8 K) votes of the K online non-discriminated identities  *)
+(*                                for the target, last vote of a voter counts) - and does answer yes under it, away  *)
+(*                                from the exact boundary seconds (there a disagreement is drift)                  *)
+(*   BitsOnlyInWindow / BitsWhenInWindow, AcceptOnlyByRule / AcceptWhenRule   the same for UpgradeBits and          *)
+(*                                Upgrader.ValidateBlock (case table MC_UpgradeQ on a real Upgrader)                *)
+(*   ListenerInOrder              the listening goroutine processes the votes it is handed in order                 *)
 EXTENDS Upgrade, Json, IOUtils
 
 Trace == ndJsonDeserialize(IOEnv.TRACE_FILE)
@@ -148,7 +156,11 @@ TGenesis ==
 TQuery ==
     /\ l <= Len(Trace) /\ Trace[l].ev = "Query" /\ l' = l + 1
     /\ LET e == Trace[l] IN
-       /\ Note(If(\A i \in 1..Len(e.qs) : e.qs[i][2] # 2, "NoPanic") \cup Common(blks, e.sts, nd, hd))
+       /\ Note(If(\A i \in 1..Len(e.qs) : e.qs[i][2] # 2, "NoPanic") \cup Common(blks, e.sts, nd, hd)
+               \cup If(\A i \in 1..Len(e.qs) : LET q == e.qs[i] p == nd[q[1]] IN
+                           (q[2] = 1 /\ ~Rec(e.sts, q[1]).dead /\ q[6] = 1) => CanUpgrade(c.cfg, p.ver, e.now, q[8], p.book, SetOf(q[7])), "CanOnlyByRule")
+               \cup If(\A i \in 1..Len(e.qs) : LET q == e.qs[i] p == nd[q[1]] IN
+                           (q[2] = 1 /\ ~Rec(e.sts, q[1]).dead /\ q[4] # 0) => (ValidTarget(c.cfg, p.ver, e.now) /\ q[4] = Target(c.cfg, p.ver)), "BitsOnlyInWindow"))
        /\ \A i \in 1..Len(e.qs) :
              LET q == e.qs[i] p == nd[q[1]] el == SetOf(q[7]) IN
              q[2] = 2 \/ Rec(e.sts, q[1]).dead \/
@@ -192,7 +204,8 @@ TRestart ==
           ELSE /\ Note(Common(blks, e.sts, nd2, hd)
                        \cup If(/\ o.ver = b.ver /\ o.stored = b.stored /\ o.e10 = b.e10 /\ o.e11 = b.e11 /\ o.e12 = b.e12 /\ o.gen = b.gen
                                /\ o.h = b.h /\ o.hash = b.hash /\ o.cur = b.cur /\ o.curh = b.curh /\ o.inter = b.inter
-                               /\ (o.old = b.old \/ OldOk(blks, o)), "RestartNeutral"))
+                               /\ (o.old = b.old \/ OldOk(blks, o)), "RestartNeutral")
+                       \cup If(BookOf(o.book) = BookOf(b.pbook), "RestartRestoresBook"))
                /\ Install(e.sts, nd2, hd)
     /\ UNCHANGED <<c, blks>>
 
@@ -277,7 +290,47 @@ TProbe ==
        /\ Install(e.sts, nd, hd)
     /\ UNCHANGED <<c, blks>>
 
-TraceNext == TGenesis \/ TQuery \/ TVote \/ TPersist \/ TRestart \/ TOffer \/ TBlock \/ TDeliver \/ TProbe
+\* the last vote of every voter
+Fold(votes) == [v \in VU |-> LET is == {i \in 1..Len(votes) : votes[i][1] = v} IN
+                              IF is = {} THEN 0 ELSE votes[CHOOSE i \in is : \A j \in is : j <= i][2]]
+Bitses == <<0, 11, 12, 13>>
+TCase ==
+    /\ l <= Len(Trace) /\ Trace[l].ev = "Case" /\ l' = l + 1
+    /\ LET e == Trace[l]
+           win == [v \in 10..13 |-> IF \E i \in 1..Len(e.win) : e.win[i][1] = v
+                                    THEN [s |-> e.win[CHOOSE i \in 1..Len(e.win) : e.win[i][1] = v][2], e |-> e.win[CHOOSE i \in 1..Len(e.win) : e.win[i][1] = v][3]]
+                                    ELSE [s |-> 1, e |-> 0]]
+           q == [Top |-> 12, Gen |-> FALSE, I |-> e.ival, W |-> win]
+           book == Fold(e.votes)
+           el == SetOf(e.elig)
+           canS == CanUpgrade(q, e.ver, e.now, e.vt, book, el)
+           valS == ValidTarget(q, e.ver, e.now)
+           accS(j) == UpgraderAccepts(q, e.ver, e.now, e.vt, book, el, Bitses[j])
+           strict == e.strict = 1
+       IN IF e.res # 1 THEN Note({"NoPanic"})
+          ELSE /\ Note(If(e.can = 1 => canS, "CanOnlyByRule")
+                       \cup If((canS /\ strict) => e.can = 1, "CanWhenRule")
+                       \cup If(e.bits # 0 => (valS /\ e.bits = Target(q, e.ver)), "BitsOnlyInWindow")
+                       \cup If((valS /\ strict) => e.bits = Target(q, e.ver), "BitsWhenInWindow")
+                       \cup If(\A j \in 1..4 : e.acc[j] = 1 => accS(j), "AcceptOnlyByRule")
+                       \cup If(\A j \in 1..4 : (accS(j) /\ (strict \/ j <= 2)) => e.acc[j] = 1, "AcceptWhenRule"))
+               /\ Drift((e.can = 1) <=> canS, "Case:can")
+               /\ Drift((e.valid = 1) <=> valS, "Case:valid")
+               /\ Drift(e.bits = Bits(q, e.ver, e.now), "Case:bits")
+               /\ Drift(\A j \in 1..4 : (e.acc[j] = 1) <=> accS(j), "Case:accept")
+               /\ Drift(e.target = Target(q, e.ver), "Case:target")
+               /\ Drift(e.k = Cardinality(el), "Case:committee")
+    /\ UNCHANGED <<c, nd, hd, blks, ob>>
+
+\* votes = every vote handed to the listener so far
+TListener ==
+    /\ l <= Len(Trace) /\ Trace[l].ev = "Listener" /\ l' = l + 1
+    /\ LET e == Trace[l] IN
+       Note(If(e.last \/ \A v \in 1..9 : BookOf(e.book)[v] = Fold(e.votes)[v], "ListenerInOrder")
+            \cup If(~e.last \/ e.restored, "RestartRestoresBook"))
+    /\ UNCHANGED <<c, nd, hd, blks, ob>>
+
+TraceNext == TCase \/ TListener \/ TGenesis \/ TQuery \/ TVote \/ TPersist \/ TRestart \/ TOffer \/ TBlock \/ TDeliver \/ TProbe
 TraceSpec == TraceInit /\ [][TraceNext]_tvars
 
 TraceAccepted ==
